@@ -3,6 +3,7 @@ pre-existing entries, judged against a path -> bytes model (whole-tree snapshot 
 every operation).  Clocks that writers embed in their output are pinned (see setup_worker)."""
 import hashlib
 import os
+import pathlib
 import shutil
 import types
 
@@ -76,7 +77,8 @@ def generate(check, rng, tier, run_index):
                         'frames': rng.randint(1, 3), 'seed': rng.below(1 << 20)})
         else:
             ops.append({'op': 'read', 'p': p, 'how': rng.choice(['load', 'load_frame', 'iterload', 'open_read', 'load_topology', 'cursor'])})
-    return {'check': check, 'paths': paths, 'ops': ops, 'seed': rng.below(1 << 30), 'relative': rng.chance(0.3)}
+    return {'check': check, 'paths': paths, 'ops': ops, 'seed': rng.below(1 << 30), 'relative': rng.chance(0.3),
+            'pathobj': rng.chance(0.25)}      # paths handed over as pathlib.Path objects instead of strings
 
 
 # ------------------------------------------------------------------ tree model
@@ -253,6 +255,12 @@ def _execute(check, case, workdir):
         ent = case['paths'][op['p']]
         ext = ent['ext']
         p = os.path.join(pathroot, ent['name'])
+        # what the library is given: the string, or a pathlib.Path (the compiled file classes take strings only, so
+        # md.open keeps the string for them)
+        pa = pathlib.Path(p) if case.get('pathobj') else p
+        po = p if OPENW_FMT.get(ext, ext) in ('xtc', 'trr', 'dcd', 'dtr') else pa
+        if pa is not p:
+            res.probe('path_given_as_pathlib_object')
         before = snapshot(root)
         kind = op['op']
         if kind == 'save':
@@ -264,7 +272,7 @@ def _execute(check, case, workdir):
             flags = 'fo=%d,%s,%s' % (op['fo'], 'multi' if n > 1 else 'single', pre_kind)
             err = None
             try:
-                t.save(p, force_overwrite=op['fo'])
+                t.save(pa, force_overwrite=op['fo'])
             except Exception as e:
                 err = e
             after = snapshot(root)
@@ -337,7 +345,7 @@ def _execute(check, case, workdir):
                     w = e2_writer.Writer.__new__(e2_writer.Writer)
                     w.md, w.fmt, w.path, w.top, w.h, w.n_models = md, wfmt, p, top, None, 0
                     kw = {'n_atoms': N_ATOMS} if wfmt == 'mdcrd' else {}
-                    w.h = md.open(p, 'w', force_overwrite=op['fo'], **kw)
+                    w.h = md.open(po, 'w', force_overwrite=op['fo'], **kw)
                     try:
                         if op['then'] == 'write_close':
                             x, tm, L, A = fmts.tagged_arrays(op['frames'], N_ATOMS, 'ortho', op['seed'])
@@ -349,7 +357,7 @@ def _execute(check, case, workdir):
                     finally:
                         w.close()
                 else:
-                    h = md.open(p, 'w', force_overwrite=op['fo'])
+                    h = md.open(po, 'w', force_overwrite=op['fo'])
                     try:
                         if op['then'] == 'write_close':
                             x, tm, L, A = fmts.tagged_arrays(1, N_ATOMS, 'ortho', op['seed'])
@@ -444,21 +452,21 @@ def _execute(check, case, workdir):
             err = None
             try:
                 if how == 'load':
-                    md.load(p, **kw)
+                    md.load(pa, **kw)
                 elif how == 'load_frame':
-                    md.load_frame(p, 0, **kw)
+                    md.load_frame(pa, 0, **kw)
                 elif how == 'iterload':
-                    for j, c in enumerate(md.iterload(p, chunk=2, **kw)):
+                    for j, c in enumerate(md.iterload(pa, chunk=2, **kw)):
                         if j > st['n'] + 5:
                             break
                 elif how == 'load_topology':
                     if lfmt in ('h5', 'pdb', 'gro'):
-                        md.load_topology(p)
+                        md.load_topology(pa)
                     else:
-                        md.load(p, **kw)
+                        md.load(pa, **kw)
                 elif how in ('open_read', 'cursor'):
                     okw = {'n_atoms': N_ATOMS} if lfmt == 'mdcrd' else {}
-                    with md.open(p, **okw) as fh:
+                    with md.open(po, **okw) as fh:
                         if how == 'cursor' and hasattr(fh, 'seek') and ext not in RESTART:
                             try:
                                 len(fh)
